@@ -51,6 +51,7 @@ type c04Case struct {
 	Text  *c04Text  `json:"text,omitempty"` // text part (c04_text.go)
 	Fn    *c04Fn    `json:"fn,omitempty"`   // fnnames part (c04_fn.go)
 	Last  *c04Last  `json:"last,omitempty"` // last part (c04_last.go)
+	TVar  *c04TVar  `json:"tvar,omitempty"` // tvar part (c04_tvar.go)
 }
 
 // c04Root is the struct form of the root data.
@@ -1628,11 +1629,13 @@ func (p *c04) sizes(ctx core.Ctx) (nD1, nGrid2, nNest, nNon int) {
 
 func (p *c04) Plan(ctx core.Ctx) int {
 	a, b, c, d := p.sizes(ctx)
-	return a + b + c + d + c04NText() + c04NFn() + c04NLast()
+	return a + b + c + d + c04NText() + c04NFn() + c04NLast() + c04NTVar()
 }
 
 func (p *c04) Gen(ctx core.Ctx, i int) any {
-	if a, b, c, d := p.sizes(ctx); i >= a+b+c+d+c04NText()+c04NFn() {
+	if a, b, c, d := p.sizes(ctx); i >= a+b+c+d+c04NText()+c04NFn()+c04NLast() {
+		return c04BuildTVar(i - (a + b + c + d) - c04NText() - c04NFn() - c04NLast())
+	} else if i >= a+b+c+d+c04NText()+c04NFn() {
 		return c04BuildLast(i - (a + b + c + d) - c04NText() - c04NFn())
 	} else if i >= a+b+c+d+c04NText() {
 		return c04BuildFn(i - (a + b + c + d) - c04NText())
@@ -1836,6 +1839,10 @@ func (p *c04) Exec(ctx core.Ctx, cc any) core.Obs {
 	}
 	if c.Part == "last" && c.Last != nil {
 		c04ExecLast(c, &o)
+		return o
+	}
+	if c.Part == "tvar" && c.TVar != nil {
+		c04ExecTVar(c, &o)
 		return o
 	}
 	if c.Part == "fnnames" && c.Fn != nil {
